@@ -161,9 +161,15 @@ Group(c) ==
   LET inner == Prod(SubSeq(c.bounds, Len(c.bounds) - c.T + 1, Len(c.bounds)), 1)
       full == IF \A j \in DOMAIN c.tb : c.tb[j] > 0 THEN Prod(c.tb, 1) ELSE inner IN
   IF inner > 0 /\ full % inner = 0 THEN full \div inner ELSE 1
+(* a pure data mover (xDMA: reader, extension, writer coupled by FIFOs) has no array that all operands feed in lock step: each streamer
+   moves its own fixed number of bytes per step, so the group is read off the operand itself *)
+ByteGroup(c) ==
+  LET hb == Cardinality(StepBytes(c.base, c.ub, c.ts, c.sb, c.ss, 8, 0))  sz == Cardinality(SchedBytes(c, 0)) IN
+  IF sz > 0 /\ hb % sz = 0 /\ hb > 0 THEN hb \div sz ELSE 1
 StreamCase(c) ==
   LET nsteps == Prod(TemporalBounds(c), 1)
-      g == IF nsteps % Group(c) = 0 THEN Group(c) ELSE 1
+      g0 == IF c.mover = 1 THEN ByteGroup(c) ELSE Group(c)
+      g == IF nsteps % g0 = 0 THEN g0 ELSE 1
       hs == nsteps \div g IN
   First(<<
     <<"StepCount", Steps(c.ub) = hs>>,
